@@ -271,6 +271,8 @@ class IRModule:
             bs = []; k = 0
             while k < len(raw):
                 if raw[k] == '\\':
+                    if raw[k + 1] == '\\':
+                        bs.append(92); k += 2; continue
                     bs.append(int(raw[k + 1:k + 3], 16)); k += 3
                 else:
                     bs.append(ord(raw[k])); k += 1
@@ -1079,6 +1081,11 @@ class Engine:
     def __init__(self, irm, max_steps=2000000, max_paths=100000, timeout=None, query_timeout_ms=60000, conc_cap=64, stubs=None):
         self.irm = irm; self.dec = Decoder(irm)
         self.fns = irm.decoded
+        if not getattr(irm, '_prepared', False):
+            irm._prepared = True
+            for h in MODULE_HOOKS:
+                h(irm)
+        self.trace_throw = bool(os.environ.get('IRSYM_TRACE_THROW'))
         self.inputs = None          # concrete replay: name -> list of values (vs_* return them instead of fresh symbols)
         self.inpos = {}
         self.solver = z3.Solver()
@@ -1567,6 +1574,7 @@ class Engine:
 
 EXTERNALS = {}
 EXT_PREFIX = []
+MODULE_HOOKS = []
 
 
 def ext(*names):
@@ -1814,6 +1822,15 @@ def x_free_exc(eng, st, a):
 
 @ext('__cxa_throw')
 def x_throw(eng, st, a):
+    if eng.trace_throw:
+        msg = ''
+        try:
+            p = cells_int(eng.mem_read(st, a[0] + 8, 8))
+            if type(p) is int and st.find(p) is not None:
+                msg = bytes(c if isinstance(c, int) else 63 for c in eng.read_cstr(st, p)).decode('latin1')
+        except Exception:
+            pass
+        st.trace.append(('throw ' + str(eng.ti_name(a[1])) + ' "' + msg + '" @ ' + eng.where(st)[:200], 0))
     eng.throw(st, a[0], a[1])
 
 
